@@ -312,4 +312,104 @@ theorem RInv.squash {root sp} (h : RInv root sp) (srcLog : List (List Nat × Lis
   · simp [hx]
   · simp [hx, hok.credited y hy hx]
 
+/-! ### switching branches with uncommitted work -/
+
+structure SwitchOK (root : List Nat) (sp : Spec) (otherLog : List (List Nat × List Nat)) (otherNotes : List Note)
+    (otherHead : List Nat) : Prop where
+  hist : HistOK sp.g root otherLog otherNotes
+  tip : otherHead = tipOf root otherLog
+  seen : ∀ cp ∈ otherLog, ∀ y ∈ cp.1, y ∈ sp.seen
+  /-- a file with local changes is the same at both tips; a file without has nothing in the working log -/
+  carry : (sp.st.work = sp.st.head ∧ sp.st.index = sp.st.head ∧ sp.st.entries = []) ∨
+          (¬(sp.st.work = sp.st.head ∧ sp.st.index = sp.st.head) ∧ otherHead = sp.st.head)
+
+theorem tip_seen {root sp} (h : RInv root sp) (otherLog : List (List Nat × List Nat))
+    (hs : ∀ cp ∈ otherLog, ∀ y ∈ cp.1, y ∈ sp.seen) : ∀ y ∈ tipOf root otherLog, y ∈ sp.seen := by
+  intro y hy
+  cases otherLog with
+  | nil => exact h.rootSeen y hy
+  | cons cp rest => exact hs cp (by simp) y hy
+
+theorem RInv.switchCarry {root sp} (h : RInv root sp) (otherLog : List (List Nat × List Nat)) (otherNotes : List Note)
+    (otherHead : List Nat) (hok : SwitchOK root sp otherLog otherNotes otherHead) :
+    RInv root ⟨switchCarry otherLog otherNotes otherHead sp.st, sp.g, sp.seen⟩ := by
+  have hts := tip_seen h otherLog hok.seen
+  rcases hok.carry with ⟨hw, hx, he⟩ | ⟨hn, heq⟩
+  · have hc : (sp.st.work = sp.st.head && sp.st.index = sp.st.head) = true := by simp [hw, hx]
+    unfold GitAi.Sys.switchCarry
+    rw [if_pos hc]
+    refine ⟨⟨?_, ?_, ?_, ?_, ?_⟩, hok.hist, hok.tip, h.rootHuman, h.rootSeen, h.rootNodup, hok.seen⟩
+    · show otherHead.Nodup
+      rw [hok.tip]; exact hok.hist.tip_nodup h.rootNodup
+    · show ∀ y ∈ otherHead, y ∈ sp.seen
+      rw [hok.tip]; exact hts
+    · show ∀ y ∈ otherHead, y ∈ sp.seen
+      rw [hok.tip]; exact hts
+    · exact h.inv2.snapSeen
+    · show match sp.st.entries.getLast? with
+        | some e => _
+        | none => sp.st.initial = pendingOf _
+      rw [he]
+      simp only [List.getLast?_nil]
+      -- nothing was pending before (work = HEAD), nothing is pending after
+      have hl := h.inv2.latest
+      rw [he] at hl
+      simp only [List.getLast?_nil] at hl
+      rw [hl]
+      have e1 : pendingOf sp = [] := by
+        apply claimsFrom_eq_nil
+        intro y hy
+        have : y ∈ sp.st.head := hw ▸ hy
+        simp [target, this]
+      rw [e1]
+      symm
+      apply claimsFrom_eq_nil
+      intro y hy
+      have hy' : y ∈ otherHead := hy
+      simp [target, hy']
+  · have hc : (sp.st.work = sp.st.head && sp.st.index = sp.st.head) = false := by
+      simp only [Bool.and_eq_false_iff, decide_eq_false_iff_not]
+      by_cases hw : sp.st.work = sp.st.head
+      · right; intro hx; exact hn ⟨hw, hx⟩
+      · left; exact hw
+    unfold GitAi.Sys.switchCarry
+    rw [if_neg (by simp [hc])]
+    exact ⟨⟨h.inv2.nodup, h.inv2.workSeen, h.inv2.headSeen, h.inv2.snapSeen, h.inv2.latest⟩, hok.hist,
+      by show sp.st.head = tipOf root otherLog; rw [← heq]; exact hok.tip, h.rootHuman, h.rootSeen, h.rootNodup, hok.seen⟩
+
+structure SwitchMergeOK (root : List Nat) (sp : Spec) (otherLog : List (List Nat × List Nat)) (otherNotes : List Note)
+    (otherHead ys : List Nat) : Prop where
+  hist : HistOK sp.g root otherLog otherNotes
+  tip : otherHead = tipOf root otherLog
+  seen : ∀ cp ∈ otherLog, ∀ y ∈ cp.1, y ∈ sp.seen
+  nodup : ys.Nodup
+  /-- git's merge result is made of the other tip's lines and of the local changes -/
+  merged : ∀ y ∈ ys, y ∈ otherHead ∨ (y ∈ sp.st.work ∧ y ∉ sp.st.head)
+
+theorem RInv.switchMerge {root sp} (h : RInv root sp) (otherLog : List (List Nat × List Nat)) (otherNotes : List Note)
+    (otherHead ys : List Nat) (hok : SwitchMergeOK root sp otherLog otherNotes otherHead ys) :
+    RInv root ⟨switchMerge otherLog otherNotes otherHead ys sp.st, sp.g, sp.seen⟩ := by
+  have hts := tip_seen h otherLog hok.seen
+  have hA := wlAuthor_spec sp h.inv2
+  refine ⟨⟨hok.nodup, ?_, ?_, by intro e he; exact absurd he (by simp [GitAi.Sys.switchMerge]), ?_⟩, hok.hist, hok.tip, h.rootHuman,
+    h.rootSeen, h.rootNodup, hok.seen⟩
+  · intro y hy
+    rcases hok.merged y hy with e | ⟨e, _⟩
+    · exact hts y (hok.tip ▸ e)
+    · exact h.inv2.workSeen y e
+  · show ∀ y ∈ otherHead, y ∈ sp.seen
+    rw [hok.tip]; exact hts
+  · show splitPending otherHead ys (wlAuthor sp.st) = pendingOf _
+    rw [splitPending_eq_claims]
+    unfold pendingOf
+    apply claimsFrom_congr
+    intro y hy
+    have hhd : (GitAi.Sys.switchMerge otherLog otherNotes otherHead ys sp.st).head = otherHead := rfl
+    simp only [target, hhd]
+    by_cases hx : y ∈ otherHead
+    · simp [hx]
+    · rcases hok.merged y hy with e | ⟨e1, e2⟩
+      · exact absurd e hx
+      · rw [hA]; simp [hx, e1, e2, target]
+
 end GitAi.Sys
